@@ -191,7 +191,10 @@ def record_history(ctx, lc, defaults, tid, nobj, ncalls, maxlen=30):
         o = rng.randint(1, nobj)
         if o not in objs or rng.random() < 0.03:
             s = common.random_sequences(rng, 1, maxlen, 5)[0]
-            if objs and rng.random() < 0.5:
+            if rng.random() < 0.15:
+                # rare classes: kappa clamped from (1, 1.1), kappa beyond 1.1 (finding K1), delta-max 0, single residue
+                s = rng.choice(["DRKKGSE", "EEKKKGKE", "KGEEEEGK", "EKGKGKE", "KEEEKEK", "KEEEEK", "KKKKK", "GSGS", "K", "EKSYT"])
+            elif objs and rng.random() < 0.5:
                 # same composition as a live object, other residues / order
                 base = list(common.charge_pattern(rng.choice(list(objs.values())).get_sequence()))
                 rng.shuffle(base)
